@@ -282,7 +282,13 @@ def check_cell(ctx, W, comps, bare, eff, origin, lines, recs, bcomp=None):
     # an index tensor / list on a batch dimension: judged by the specification only (the Lean model has no batch
     # dimensions) and reported under its own key family
     batch_adv = bcomp is not None and bcomp["k"] in ("tensor", "list")
-    key = f"getitem:{layout}:" + ("batch-advanced:" if batch_adv else "") + \
+    # index tensors on a batch dimension are PROVED right (getitemB_eq_spec_block_event) where the event part selects a block:
+    # batch-only, full x full, int x slice, slice x int; those cells keep a key of their own, outside the known finding
+    block = eff is None or (eff[0] == FULL and eff[1] == FULL) or \
+        (kind_of(eff[0]), kind_of(eff[1])) in (("int", "slice"), ("slice", "int"))
+    batch_tensor_block = batch_adv and block
+    batch_adv = batch_adv and not block
+    key = f"getitem:{layout}:" + ("batch-advanced:" if batch_adv else ("batch-tensor-block:" if batch_tensor_block else "")) + \
         ("batch-only" if eff is None else f"{kind_of(eff[0])}x{kind_of(eff[1])}")
     text = f"n={W.n} t={W.t} {layout} batch={list(W.batch)}{' psd' if W.dense_psd else ''} d[{show_idx(comps, bare)}]"
     replay = {"n": W.n, "t": W.t, "inter": W.inter, "batch": list(W.batch), "psd": W.dense_psd,
@@ -299,6 +305,10 @@ def check_cell(ctx, W, comps, bare, eff, origin, lines, recs, bcomp=None):
     ctx.case(text, nontrivial=valid and not identity,
              sample={"cell": text, "origin": origin} if (valid and not identity and not exotic) else None)
     ctx.count("cells_" + origin)
+    if batch_tensor_block:
+        ctx.count("batch_tensor_block_cells")
+    if batch_adv:
+        ctx.count("batch_advanced_cells")
     # ---- implementation
     try:
         R = W.d[idx]
